@@ -299,7 +299,7 @@ def clause_writeback_consistent(ctx):
                       "abscissa is still k-scaled")
     # result dictionary
     upd = [c for c in calls_in(F.fn) if isinstance(c.func, ast.Attribute)
-           and c.func.attr == "update" and F.r(c.func.value) == "self.fp"
+           and c.func.attr in ("update", "restore") and F.r(c.func.value) == "self.fp"
            and c.args and isinstance(c.args[0], ast.Dict)]
     ctx.floor("result update in _fit", len(upd), 1)
     d = {const_str(k): v for k, v in zip(upd[0].args[0].keys,
@@ -373,7 +373,7 @@ def clause_gcf_pairing(ctx):
                   "the back-conversion alters other attributes")
     # xmin / xmax
     upd = [c for c in calls_in(fn) if isinstance(c.func, ast.Attribute)
-           and c.func.attr == "update" and c.args
+           and c.func.attr in ("update", "restore") and c.args
            and isinstance(c.args[0], ast.Dict)]
     if upd:
         d = {const_str(k): v for k, v in zip(upd[0].args[0].keys,
